@@ -146,6 +146,14 @@ func (h *c14Hist) materialise(env *Env) (*simrt.History, []*c14Key) {
 		simrt.FileSpec{Path: "/elsewhere/dir/os", Data: []byte("func Shell() string {\n\treturn \"cwd\"\n}\n")},
 		simrt.FileSpec{Path: "/elsewhere/dir/strings.tsh", Data: []byte("func Contains(a string, b string) bool {\n\treturn false\n}\n")},
 		simrt.FileSpec{Path: "/elsewhere/dir/std/strings.tsh", Data: []byte("func Contains(a string, b string) bool {\n\treturn false\n}\n")})
+	// directories ABOVE the places the tree is mounted at hold a std directory of their own (the
+	// tree may sit inside a checkout of another TypeShell version): only the std directory next
+	// to the executable is the standard library
+	for _, anc := range []string{"/w", "/srv/a", "/home/u", "/tmp"} {
+		// (other bytes above every place, and no std directory above some places)
+		files = append(files, simrt.FileSpec{Path: path.Join(anc, "std/strings.tsh"), Data: []byte(fmt.Sprintf("func Contains(a string, b string) bool {\n\treturn false\n}\nfunc Repeat(s string, n int) string {\n\treturn \"above %s\"\n}\n", anc))},
+			simrt.FileSpec{Path: path.Join(anc, "std/os.tsh"), Data: []byte(fmt.Sprintf("func Shell() string {\n\treturn \"above %s\"\n}\n", anc))})
+	}
 	for _, f := range h.Files {
 		if !strings.Contains(f.Rel, "decoy") && len(f.Data) > 0 {
 			// same relative names as the real sources, other (valid) content
